@@ -110,7 +110,12 @@ class ExternalOptimizer(Optimizer):
                             exception = exc
                             answer = "abort"
 
-                    if answer is not None and comm.write(answer):
+                    try:
+                        sent = answer is not None and comm.write(answer)
+                    except BrokenPipeError:
+                        # The process is gone, this is handled below:
+                        break
+                    if sent:
                         answer = None
                         # If the message has been sent, then reraise any exceptions:
                         if exception is not None:
